@@ -38,7 +38,7 @@ for n in names:
     finally:
         subprocess.call(["git", "-C", "/repo", "checkout", "--", "."])
     meta = json.load(open(d + "/meta.json")) if os.path.exists(d + "/meta.json") else {}
-    target = meta.get("property")
+    target = (meta.get("property") or "")[:3] or None
     flagged = sorted(p for p, (rc, ls) in hit.items() if rc == 1)
     errored = sorted(p for p, (rc, ls) in hit.items() if rc not in (0, 1))
     results[n] = {"property": target, "flagged_by": flagged, "checker_errors": errored, "caught": target in flagged if target else bool(flagged),
